@@ -276,6 +276,9 @@ func (x *Exec) applyContract(bc *blockCtx, in ssa.Instruction, f *ssa.Function, 
 			}
 		}
 	}
+	// closures passed to the callee may run during the call: their effects on
+	// the caller's state are not part of the callee's frame
+	x.closureArgEffects(bc, args, name)
 	var res *Val
 	if fc.Pure && sig.Results().Len() >= 1 && len(f.FreeVars) == 0 {
 		// deterministic: the result is a function of the arguments
@@ -330,6 +333,7 @@ func (x *Exec) invoke(bc *blockCtx, in ssa.Instruction, recv *Val, m *types.Func
 		return x.callStatic(bc, in, f, nil, append([]*Val{rv}, args...))
 	}
 	key := normalizeFuncName(m.FullName())
+	x.closureArgEffects(bc, args, key)
 	ic, mc := x.prog.ifaceMethod(m)
 	pure := ic != nil && ic.isPureMethod(m.Name())
 	rt := x.asTerm(recv)
@@ -1145,4 +1149,136 @@ func (x *Exec) lockedCallCheck(bc *blockCtx, in ssa.Instruction, ce *CEnv, tok, 
 				"call that writes memory shared between workers ("+key+") must hold the lock: "+x.prog.srcLine(posOf(in)), false)
 		}
 	}
+}
+
+// closureArgEffects: a function literal passed as an argument may be invoked by
+// the callee. Its writes are over-approximated: the captured variables it stores
+// to become unknown; if its body writes anything else (through pointers, maps,
+// or calls functions without a pure/assigns contract) every heap becomes unknown.
+func (x *Exec) closureArgEffects(bc *blockCtx, args []*Val, callee string) {
+	for _, a := range args {
+		if a == nil || a.Fn == nil || len(a.Fn.Blocks) == 0 {
+			continue
+		}
+		fn := a.Fn
+		fvIndex := map[ssa.Value]int{}
+		for i, fv := range fn.FreeVars {
+			fvIndex[fv] = i
+		}
+		writesFV := map[int]bool{}
+		unknown := false
+		ghostKeys := map[string]bool{}
+		for _, b := range fn.Blocks {
+			for _, in := range b.Instrs {
+				switch i := in.(type) {
+				case *ssa.Store:
+					if k, ok := fvIndex[i.Addr]; ok {
+						writesFV[k] = true
+					} else if al, ok := i.Addr.(*ssa.Alloc); ok && al.Parent() == fn {
+						// local variable of the closure
+					} else if fa, ok := i.Addr.(*ssa.FieldAddr); ok {
+						if al, ok := fa.X.(*ssa.Alloc); ok && al.Parent() == fn {
+							continue
+						}
+						unknown = true
+					} else if ia, ok := i.Addr.(*ssa.IndexAddr); ok {
+						if al, ok := ia.X.(*ssa.Alloc); ok && al.Parent() == fn {
+							continue
+						}
+						unknown = true
+					} else {
+						unknown = true
+					}
+				case *ssa.MapUpdate, *ssa.Send, *ssa.Go, *ssa.Defer:
+					unknown = true
+				case *ssa.Call:
+					cc := i.Common()
+					if _, isB := cc.Value.(*ssa.Builtin); isB {
+						if cc.Value.Name() == "delete" || cc.Value.Name() == "copy" {
+							unknown = true
+						}
+						continue
+					}
+					if cc.IsInvoke() {
+						ic, _ := x.prog.ifaceMethod(cc.Method)
+						if ic == nil || !ic.isPureMethod(cc.Method.Name()) {
+							unknown = true
+						}
+						continue
+					}
+					if cf, ok := cc.Value.(*ssa.Function); ok {
+						name := fnKey(cf)
+						if cf.Origin() != nil {
+							if _, ok := x.prog.Contracts.Funcs[name]; !ok {
+								name = fnKey(cf.Origin())
+							}
+						}
+						c := x.prog.Contracts.Funcs[name]
+						switch {
+						case c != nil && c.Pure:
+						case c != nil && c.Assigns != "":
+							for _, k := range strings.Fields(strings.ReplaceAll(c.Assigns, ",", " ")) {
+								if strings.HasPrefix(k, "G_") || strings.HasPrefix(k, "GA_") {
+									ghostKeys[k] = true
+								} else if strings.HasPrefix(k, "H(") || strings.HasPrefix(k, "HS(") {
+									// a whole heap named by type: exactly that heap becomes unknown
+									func() {
+										defer func() {
+											if r := recover(); r != nil {
+												unknown = true
+											}
+										}()
+										ghostKeys[x.resolveHeapName(&CEnv{x: x, st: bc.st, pkg: fnPkg(cf)}, k)] = true
+									}()
+								} else {
+									unknown = true
+								}
+							}
+						case isKnownPureLeaf(name):
+						default:
+							unknown = true
+						}
+						continue
+					}
+					// call through a function value: may do anything
+					unknown = true
+				}
+			}
+		}
+		if unknown {
+			for k := range x.heapSorts {
+				old := x.getHeap(bc.st, k)
+				bc.st.heaps[k] = x.b.Fresh(k+"_after_closure_"+shortFn(callee), x.heapSorts[k])
+				if k == "G_alloc" {
+					x.axiom(x.b.Cmp(">=", bc.st.heaps[k], old))
+				}
+			}
+			x.note("a function literal passed to " + callee + " writes memory outside its captured variables: every heap is treated as unknown after the call")
+			return
+		}
+		for k := range ghostKeys {
+			x.registerGhost(k)
+			bc.st.heaps[k] = x.b.Fresh(k+"_after_closure_"+shortFn(callee), x.heapSorts[k])
+		}
+		for k := range writesFV {
+			if k >= len(a.Binds) {
+				continue
+			}
+			bv := a.Binds[k]
+			pt, ok := fn.FreeVars[k].Type().(*types.Pointer)
+			if !ok {
+				continue
+			}
+			loc := x.derefLoc(nil, nil, bv)
+			x.storeLoc(bc.st, loc, x.b.Fresh("captured_"+fn.FreeVars[k].Name()+"_after_"+shortFn(callee), x.so.SortOf(pt.Elem())))
+		}
+		if len(writesFV) > 0 {
+			x.note("captured variables written by a function literal passed to " + callee + " are unknown after the call")
+		}
+	}
+}
+
+// isKnownPureLeaf: math and value-method helpers that write no memory.
+func isKnownPureLeaf(name string) bool {
+	return strings.HasPrefix(name, "math.") || strings.HasPrefix(name, "(model3d.Coord3D).") || strings.HasPrefix(name, "(model2d.Coord).") || strings.HasPrefix(name, "model3d.XYZ") || strings.HasPrefix(name, "model2d.XY")
 }
